@@ -68,6 +68,17 @@ impl Trio {
         self.model.iter().take(n.saturating_sub(1)).all(|ch| ch.len() == c)
             && self.model.last().map(|l| l.len() <= c).unwrap_or(true)
     }
+    /// `apply`, with a panic of the buffer reported as an oracle failure of that operation (it is not a
+    /// harness failure)
+    fn apply_caught(&mut self, op: Op) -> Result<(), String> {
+        match std::panic::catch_unwind(std::panic::AssertUnwindSafe(|| self.apply(op))) {
+            Ok(r) => r,
+            Err(e) => {
+                let msg = e.downcast_ref::<String>().cloned().or_else(|| e.downcast_ref::<&str>().map(|s| s.to_string())).unwrap_or_default();
+                Err(format!("panicked: {}", msg.chars().take(160).collect::<String>()))
+            }
+        }
+    }
     /// Applies `op` to both variants and the model; Err = oracle failure.
     fn apply(&mut self, op: Op) -> Result<(), String> {
         match op {
@@ -163,7 +174,7 @@ fn bfs(c: usize, depth: usize, max_appends: usize, dir: &std::path::Path) -> Bfs
     let build = |path: &[Op]| -> Result<Trio, (usize, String)> {
         let mut t = Trio::new(dir);
         for (i, op) in path.iter().enumerate() {
-            t.apply(*op).map_err(|e| (i, e))?;
+            t.apply_caught(*op).map_err(|e| (i, e))?;
         }
         Ok(t)
     };
@@ -207,7 +218,7 @@ fn bfs(c: usize, depth: usize, max_appends: usize, dir: &std::path::Path) -> Bfs
             }
             if !seen.contains_key(&k) {
                 // differential from every new state: append a canary, read everything back
-                let canary = t.apply(Op::Append(c)).and_then(|_| t.apply(Op::IterAll)).and_then(|_| t.apply(Op::ChunksAll(c)));
+                let canary = t.apply_caught(Op::Append(c)).and_then(|_| t.apply_caught(Op::IterAll)).and_then(|_| t.apply_caught(Op::ChunksAll(c)));
                 if let Err(e) = canary {
                     let mut p3 = p2.clone();
                     p3.extend([Op::Append(c), Op::IterAll, Op::ChunksAll(c)]);
@@ -245,7 +256,7 @@ fn sequences(c: usize, len: usize, dir: &std::path::Path) -> (usize, Vec<(Vec<Op
         count += 1;
         let mut t = Trio::new(dir);
         for (i, op) in path.iter().enumerate() {
-            if let Err(e) = t.apply(*op) {
+            if let Err(e) = t.apply_caught(*op) {
                 if fails.len() < 10 {
                     fails.push((path[..=i].to_vec(), e));
                 }
